@@ -25,6 +25,8 @@ import (
 	"verif/ref/tsref"
 )
 
+var _ = fmt.Sprintf
+
 type Cons struct {
 	Kind   string `json:"kind"`    // rtmp | flv | ts
 	Inc    int    `json:"inc"`     // incarnation during (or before) which it joins
@@ -367,11 +369,21 @@ func checkMsgConsumer(c Case, P []pmsg, ci int, spec Cons, recs []lalclient.Rec,
 	for n, r := range recs {
 		// header?
 		hk := ""
+		stale := -1
 		for i := range P {
 			if isHeaderKind(P[i].kind) && eq(P[i].rec, r) {
 				hk = P[i].kind
-				break
+				if P[i].inc >= P[j].inc {
+					stale = -1
+					break
+				}
+				stale = i
 			}
+		}
+		if stale >= 0 {
+			// the only published message this record equals belongs to an incarnation that had ended before the consumer joined
+			return pbt.V("D2/stale-header/"+hk+"/"+spec.Kind, "%s: record %d %s is the %s published at index %d by incarnation %d, which had left before this consumer joined (incarnation %d)",
+				who, n, r, hk, stale, P[stale].inc, P[j].inc)
 		}
 		if hk != "" {
 			M = append(M, mapped{rec: r, idx: -1, hk: hk})
@@ -421,6 +433,16 @@ func checkMsgConsumer(c Case, P []pmsg, ci int, spec Cons, recs []lalclient.Rec,
 				if lastMeta == nil {
 					return pbt.V("D1/no-metadata/"+spec.Kind, "%s: first media frame (published index %d) arrives before any metadata although metadata was published at index %d", who, x, mi)
 				}
+			}
+			// ... and it is the metadata of this incarnation that is in force now: the latest one published before the
+			// join (a replayed frame is older than that) or before the frame itself
+			e := x
+			if x < j && P[x].inc == P[j].inc {
+				e = j
+			}
+			if mi := inForce(P, e, "meta"); mi >= 0 && (lastMeta == nil || !bytes.Equal(lastMeta.Payload, P[mi].rec.Payload)) {
+				return pbt.V("D1/stale-metadata/"+spec.Kind, "%s: the first media frame (published index %d) is preceded by metadata %v, the metadata in force is the one published at index %d (variant %d)",
+					who, x, lastMeta, mi, P[mi].item.Variant)
 			}
 			if vi := inForce(P, x, "vsh"); vi >= 0 && lastVsh == nil {
 				return pbt.V("D1/no-video-seq-header/"+spec.Kind, "%s: first media frame (published index %d) arrives before any video sequence header (in force: index %d)", who, x, vi)
@@ -507,6 +529,13 @@ func gopsBefore(P []pmsg, j int) [][]int {
 			}
 			continue
 		}
+		if P[i].kind == "ash" {
+			// same for the audio frames of the cached GOPs when the AAC configuration changes
+			if pa := inForce(P, i, "ash"); pa >= 0 && !bytes.Equal(P[pa].rec.Payload, P[i].rec.Payload) {
+				gops = nil
+			}
+			continue
+		}
 		if isHeaderKind(P[i].kind) {
 			continue
 		}
@@ -563,152 +592,6 @@ func checkReplay(P []pmsg, who, kind string, replay []int, j, gopNum, gopCap int
 	return nil
 }
 
-// ---------------------------------------------------------------------------
-// HTTP-TS
-
-func checkTsConsumer(c Case, P []pmsg, ci int, spec Cons, body []byte, j int) *pbt.Violation {
-	who := fmt.Sprintf("consumer %d (ts, inc=%d join_at=%d -> published index %d)", ci, spec.Inc, spec.JoinAt, j)
-	if len(body) == 0 {
-		return nil // nothing was delivered (e.g. G.711-only stream); absence is judged by the marker wait
-	}
-	if len(body)%188 != 0 {
-		return pbt.V("T/partial-packet", "%s: HTTP-TS body is %d bytes, not a whole number of 188-byte packets", who, len(body))
-	}
-	res, err := tsref.Demux(body, tsref.Options{})
-	if err != nil {
-		return pbt.V("T/demux-error", "%s: %v", who, err)
-	}
-	if len(res.Packets) < 2 || res.Packets[0].PID != 0 || len(res.PATs) == 0 || len(res.PMTs) == 0 || res.PATs[0].Packet != 0 || res.PMTs[0].Packet != 1 {
-		first := -1
-		if len(res.Packets) > 0 {
-			first = int(res.Packets[0].PID)
-		}
-		return pbt.V("D1/ts-not-starting-with-pat-pmt", "%s: the first two packets are not PAT then PMT (first PID %#x, %d PATs, %d PMTs)", who, first, len(res.PATs), len(res.PMTs))
-	}
-	// video PES
-	var vpid uint16
-	hasV := false
-	for _, es := range res.PMTs[0].Streams {
-		if es.StreamType == 0x1b || es.StreamType == 0x24 {
-			vpid, hasV = es.PID, true
-		}
-	}
-	if !hasV {
-		return nil
-	}
-	codec := "avc"
-	if st, _ := res.StreamType(vpid); st == 0x24 {
-		codec = "hevc"
-	}
-	first := true
-	for _, pes := range res.ByPID(vpid) {
-		nals := lalclient.SplitAnnexB(pes.Payload)
-		isKey := false
-		var inband [][]byte
-		var serials []uint32
-		for _, n := range nals {
-			if len(n) == 0 {
-				continue
-			}
-			var typ int
-			if codec == "avc" {
-				typ = int(n[0] & 0x1f)
-				if typ == 5 {
-					isKey = true
-				}
-				if typ == 7 || typ == 8 {
-					inband = append(inband, n)
-				}
-			} else {
-				typ = int(n[0]>>1) & 0x3f
-				if typ >= 16 && typ <= 23 {
-					isKey = true
-				}
-				if typ >= 32 && typ <= 34 {
-					inband = append(inband, n)
-				}
-			}
-			_ = serials
-		}
-		if first {
-			first = false
-			if !isKey {
-				return pbt.V("D3/first-video-not-key/ts", "%s: first video access unit (pts %d) holds no IDR/IRAP unit", who, pes.PTS)
-			}
-			if !pes.RandomAccess {
-				return pbt.V("D3/first-video-not-random-access/ts", "%s: first video PES lacks the random-access indicator", who)
-			}
-		}
-		if isKey {
-			// D2: the in-band parameter sets equal the ones in force for this frame
-			x := findVideoByNal(P, nals, codec)
-			if x >= 0 {
-				if vi := inForce(P, x, "vsh"); vi >= 0 {
-					vps, sps, pps := gen.ParamSets(P[x].itemCodec(c), P[vi].item.Variant)
-					want := [][]byte{sps, pps}
-					if vps != nil {
-						want = [][]byte{vps, sps, pps}
-					}
-					if !sameSets(inband, want) {
-						return pbt.V("D2/stale-parameter-sets/ts", "%s: key frame published at index %d (sequence header variant %d at index %d) carries in-band parameter sets %x, want %x", who, x, P[vi].item.Variant, vi, inband, want)
-					}
-				}
-			}
-		}
-	}
-	return nil
-}
-
-func (p pmsg) itemCodec(c Case) string { return c.Incs[p.inc].Codecs.Video }
-
-func sameSets(got, want [][]byte) bool {
-	if len(got) < len(want) {
-		return false
-	}
-	// the sets in force must be the LAST ones before the slice data (a frame may also carry its own in-band copies)
-	g := got[len(got)-len(want):]
-	for i := range want {
-		if !bytes.Equal(g[i], want[i]) {
-			return false
-		}
-	}
-	return true
-}
-
-// findVideoByNal finds the published video frame that contains the first
-// slice NAL of the access unit.
-func findVideoByNal(P []pmsg, nals [][]byte, codec string) int {
-	for _, n := range nals {
-		if len(n) < 8 {
-			continue
-		}
-		var typ int
-		if codec == "avc" {
-			typ = int(n[0] & 0x1f)
-			if typ == 5 || typ == 1 {
-			} else {
-				continue
-			}
-		} else {
-			typ = int(n[0]>>1) & 0x3f
-			if typ > 23 {
-				continue
-			}
-		}
-		for i := range P {
-			if P[i].kind != "video" {
-				continue
-			}
-			for _, ns := range P[i].item.Nals {
-				if bytes.Equal(ns.Bytes(), n) {
-					return i
-				}
-			}
-		}
-	}
-	return -1
-}
-
 func classify(c Case) (bool, []string) {
 	var labels []string
 	nt := false
@@ -725,13 +608,32 @@ func classify(c Case) (bool, []string) {
 	}
 	for _, in := range c.Incs {
 		nv := 0
+		lastV := -1
+		media := false
 		for _, it := range in.Items {
-			if it.Kind == "vsh" {
+			switch it.Kind {
+			case "vsh":
 				nv++
+				if lastV >= 0 && it.Variant != lastV {
+					labels = append(labels, "header-change")
+				} else if lastV >= 0 && media {
+					labels = append(labels, "header-resent-unchanged")
+				}
+				lastV = it.Variant
+			case "ash":
+				if media {
+					labels = append(labels, "aac-header-mid-stream")
+				}
+				if it.Variant != 0 {
+					labels = append(labels, "aac-config-change")
+				}
+			case "meta":
+				if media {
+					labels = append(labels, "metadata-mid-stream")
+				}
+			case "video", "audio":
+				media = true
 			}
-		}
-		if nv > 1 {
-			labels = append(labels, "header-change")
 		}
 		labels = append(labels, "shape:"+shape(in.Codecs))
 	}
@@ -762,9 +664,15 @@ func classify(c Case) (bool, []string) {
 		if k.Inc > 0 {
 			labels = append(labels, "join:second-incarnation")
 		}
-		g, _ := gopNumFor(c, k.Kind)
+		g, gc := gopNumFor(c, k.Kind)
 		if g > 0 {
 			labels = append(labels, "gop-cache:"+k.Kind)
+			if gc > 0 {
+				labels = append(labels, "gop-cap:"+k.Kind)
+			}
+			if k.Kind == "ts" && firstKey >= 0 && k.JoinAt > firstKey {
+				labels = append(labels, "ts-replay:"+shape(c.Incs[k.Inc].Codecs))
+			}
 		}
 	}
 	return nt, uniq(labels)
